@@ -119,4 +119,213 @@ theorem C16_registry_from_whole_module (o : Opts) (env : Env) (as las : List Str
   refine ⟨_, rfl, ?_⟩
   simp [transformModule, h]
 
+/-! ### the whole grammar: literals, parentheses, intersections/unions, Partial, Required — nested to any depth -/
+
+/-- a declared property: name (identifier or quoted), optional flag, annotated type (any type at all) -/
+structure Mem where
+  name : String
+  quoted : Bool
+  optional : Bool
+  ty : Node
+
+def Mem.keyNode (m : Mem) : Node := if m.quoted then .mk .str [m.name] [] else .mk .ident [m.name, "n"] []
+def Mem.toNode (m : Mem) : Node :=
+  .mk .tsPropSig ["false", "false", if m.optional then "true" else "false"] [m.keyNode, .mk .tsTypeAnn [] [m.ty]]
+/-- the key as it is emitted -/
+def Mem.pname (m : Mem) : Node := if m.quoted then .mk .str [m.name] [] else nIdentName m.name
+
+inductive PTy where
+  | lit (ms : List Mem)
+  | paren (t : PTy)
+  | inter (ts : List PTy)
+  | union (ts : List PTy)
+  | partial_ (t : PTy)
+  | required_ (t : PTy)
+
+mutual
+def PTy.toNode : PTy → Node
+  | .lit ms => .mk .tsTypeLit [] [nList (ms.map Mem.toNode)]
+  | .paren t => .mk .tsParen [] [t.toNode]
+  | .inter ts => .mk .tsIntersection [] [nList (PTy.toNodes ts)]
+  | .union ts => .mk .tsUnion [] [nList (PTy.toNodes ts)]
+  | .partial_ t => .mk .tsTypeRef [] [nIdent "Partial" "u", .mk .tsTypeParamInst [] [nList [t.toNode]]]
+  | .required_ t => .mk .tsTypeRef [] [nIdent "Required" "u", .mk .tsTypeParamInst [] [nList [t.toNode]]]
+def PTy.toNodes : List PTy → List Node
+  | [] => []
+  | t :: ts => t.toNode :: PTy.toNodes ts
+end
+
+mutual
+/-- the SET-THEORETIC meaning: the declared members, left to right -/
+def PTy.members : PTy → List Mem
+  | .lit ms => ms
+  | .paren t => t.members
+  | .inter ts => PTy.membersL ts
+  | .union ts => PTy.membersL ts
+  | .partial_ t => t.members.map fun m => { m with optional := true }
+  | .required_ t => t.members.map fun m => { m with optional := false }
+def PTy.membersL : List PTy → List Mem
+  | [] => []
+  | t :: ts => t.members ++ PTy.membersL ts
+end
+
+mutual
+def PTy.depth : PTy → Nat
+  | .lit _ => 1
+  | .paren t => 1 + t.depth
+  | .inter ts => 1 + PTy.depthL ts
+  | .union ts => 1 + PTy.depthL ts
+  | .partial_ t => 1 + t.depth
+  | .required_ t => 1 + t.depth
+def PTy.depthL : List PTy → Nat
+  | [] => 0
+  | t :: ts => max t.depth (PTy.depthL ts)
+end
+
+/-- no user declaration named like anything the grammar references -/
+def NoReg16 (st : St) : Prop := ∀ key, lookupReg st.typeAliases key = none ∧ lookupReg st.interfaces key = none
+
+theorem refineMembers_mems (ms : List Mem) : refineMembers (ms.map Mem.toNode) = ms.map Mem.toNode := by
+  unfold refineMembers
+  rw [List.filter_eq_self]
+  intro m hm
+  simp only [List.mem_map] at hm
+  obtain ⟨t, _, rfl⟩ := hm
+  simp [Mem.toNode]
+
+theorem setOptional_mem (v : Bool) (m : Mem) : setOptional v m.toNode = ({ m with optional := v } : Mem).toNode := by
+  cases v <;> simp [setOptional, Mem.toNode, Mem.keyNode]
+
+theorem map_setOptional (v : Bool) (ms : List Mem) :
+    (ms.map Mem.toNode).map (setOptional v) = (ms.map fun m => ({ m with optional := v } : Mem)).map Mem.toNode := by
+  simp [List.map_map, Function.comp_def, setOptional_mem]
+
+mutual
+theorem resolveElements_eq_members : ∀ (t : PTy) (fuel : Nat) (st : St), NoReg16 st → t.depth ≤ fuel →
+    resolveElements fuel st t.toNode = (t.members.map Mem.toNode, st)
+  | .lit ms, fuel, st, _, hd => by
+    cases fuel with
+    | zero => simp [PTy.depth] at hd
+    | succ f => simp [PTy.toNode, nList, resolveElements, PTy.members, refineMembers_mems]
+  | .paren t, fuel, st, hr, hd => by
+    cases fuel with
+    | zero => simp [PTy.depth] at hd
+    | succ f =>
+      have ih := resolveElements_eq_members t f st hr (by simp [PTy.depth] at hd; omega)
+      simp only [PTy.toNode, resolveElements, PTy.members, ih]
+  | .inter ts, fuel, st, hr, hd => by
+    cases fuel with
+    | zero => simp [PTy.depth] at hd
+    | succ f =>
+      have ih := resolveElementsL_eq_members ts f st [] hr (by simp [PTy.depth] at hd; omega)
+      simp only [PTy.toNode, nList, PTy.members]
+      rw [resolveElements]
+      simpa using ih
+  | .union ts, fuel, st, hr, hd => by
+    cases fuel with
+    | zero => simp [PTy.depth] at hd
+    | succ f =>
+      have ih := resolveElementsL_eq_members ts f st [] hr (by simp [PTy.depth] at hd; omega)
+      simp only [PTy.toNode, nList, PTy.members]
+      rw [resolveElements]
+      simpa using ih
+  | .partial_ t, fuel, st, hr, hd => by
+    cases fuel with
+    | zero => simp [PTy.depth] at hd
+    | succ f =>
+      have ih := resolveElements_eq_members t f st hr (by simp [PTy.depth] at hd; omega)
+      simp only [PTy.toNode, nIdent, nList, PTy.members]
+      rw [resolveElements]
+      simp only [(hr ("Partial", "u")).1, (hr ("Partial", "u")).2, typeParamsList, List.head?, ih, map_setOptional]
+      simp
+  | .required_ t, fuel, st, hr, hd => by
+    cases fuel with
+    | zero => simp [PTy.depth] at hd
+    | succ f =>
+      have ih := resolveElements_eq_members t f st hr (by simp [PTy.depth] at hd; omega)
+      simp only [PTy.toNode, nIdent, nList, PTy.members]
+      rw [resolveElements]
+      simp only [(hr ("Required", "u")).1, (hr ("Required", "u")).2, typeParamsList, List.head?, ih, map_setOptional]
+      simp
+theorem resolveElementsL_eq_members : ∀ (ts : List PTy) (fuel : Nat) (st : St) (acc : List Node), NoReg16 st →
+    PTy.depthL ts ≤ fuel →
+    (PTy.toNodes ts).foldl (fun (acc : List Node × St) t =>
+        let (more, st) := resolveElements fuel acc.2 t; (acc.1 ++ more, st)) (acc, st)
+      = (acc ++ (PTy.membersL ts).map Mem.toNode, st)
+  | [], _, _, _, _, _ => by simp [PTy.toNodes, PTy.membersL]
+  | t :: ts, fuel, st, acc, hr, hd => by
+    have hd' : t.depth ≤ fuel ∧ PTy.depthL ts ≤ fuel := by simp [PTy.depthL] at hd; omega
+    have h1 := resolveElements_eq_members t fuel st hr hd'.1
+    have h2 := resolveElementsL_eq_members ts fuel st (acc ++ t.members.map Mem.toNode) hr hd'.2
+    simp only [PTy.toNodes, List.foldl, h1, PTy.membersL]
+    rw [h2]; simp
+end
+
+
+/-! ### from members to the emitted keys and `required` flags -/
+
+def keyReq (irs : List PropIr) : List (Node × Bool) := irs.map fun ir => (ir.key, ir.required)
+
+theorem extractPropName_mem (m : Mem) (st : St) : extractPropName m.keyNode false st = (m.pname, st) := by
+  unfold Mem.keyNode Mem.pname
+  cases m.quoted <;> simp [extractPropName]
+
+/-- one declared property is appended as one prop, `required` exactly when it is not optional -/
+theorem propStep_mem (irs : List PropIr) (st : St) (m : Mem)
+    (hnew : irs.any (fun ir => ir.key == m.pname) = false) :
+    ∃ types st', propStep (irs, st) m.toNode = (irs ++ [{ key := m.pname, types := types, required := !m.optional }], st') := by
+  have hft : ("false" == "true") = false := by decide
+  simp only [propStep, Mem.toNode, typeAnnInner, hft, extractPropName_mem]
+  refine ⟨(inferRuntime FUEL st m.ty).1, (inferRuntime FUEL st m.ty).2, ?_⟩
+  simp only [irUpdate, hnew, Bool.false_eq_true, if_false]
+  cases m.optional <;> simp <;> decide
+
+/-- keys pairwise different (as emitted nodes) -/
+def DistinctKeys (ms : List Mem) : Prop := ms.Pairwise fun a b => (a.pname == b.pname) = false
+
+theorem propFold_mems : ∀ (ms : List Mem) (irs : List PropIr) (st : St),
+    (∀ ir ∈ irs, ∀ m ∈ ms, (ir.key == m.pname) = false) → DistinctKeys ms →
+    ∃ irs' st', (ms.map Mem.toNode).foldl propStep (irs, st) = (irs', st')
+      ∧ keyReq irs' = keyReq irs ++ ms.map fun m => (m.pname, !m.optional)
+  | [], irs, st, _, _ => ⟨irs, st, rfl, by simp⟩
+  | m :: ms, irs, st, hsep, hd => by
+    have hnew : irs.any (fun ir => ir.key == m.pname) = false := by
+      simp only [List.any_eq_false]
+      intro ir hir
+      simp [hsep ir hir m (by simp)]
+    obtain ⟨types, st1, h1⟩ := propStep_mem irs st m hnew
+    have hd' := List.pairwise_cons.mp hd
+    have hsep' : ∀ ir ∈ irs ++ [{ key := m.pname, types := types, required := !m.optional }], ∀ m' ∈ ms, (ir.key == m'.pname) = false := by
+      intro ir hir m' hm'
+      simp only [List.mem_append, List.mem_singleton] at hir
+      rcases hir with hir | rfl
+      · exact hsep ir hir m' (by simp [hm'])
+      · exact hd'.1 m' hm'
+    obtain ⟨irs', st', h2, h3⟩ := propFold_mems ms _ st1 hsep' hd'.2
+    refine ⟨irs', st', ?_, ?_⟩
+    · simp only [List.map, List.foldl, h1, h2]
+    · rw [h3]; simp [keyReq]
+
+/-- each emitted entry is `key: { type: …, required: <flag>, … }` -/
+theorem emitProp_shape (ir : PropIr) :
+    ∃ tyExpr, emitProp none ir = nKV ir.key (nObject [nKV (nIdentName "type") tyExpr, nKV (nIdentName "required") (nBool ir.required)]) := by
+  exact ⟨_, rfl⟩
+
+/-- **C16 for the whole grammar** (type literals, parentheses, intersections, unions, `Partial`, `Required`, nested to any
+    depth the code's limit admits; property types arbitrary): the emitted props object has exactly the declared keys, in
+    declaration order, each `required` exactly when the (possibly rewritten) declaration is not optional. -/
+theorem C16_grammar (t : PTy) (st : St) (hr : NoReg16 st) (hd : t.depth ≤ FUEL) (hk : DistinctKeys t.members) :
+    ∃ irs st', buildPropsType st t.toNode none = (nObject (irs.map (emitProp none)), st')
+      ∧ keyReq irs = t.members.map fun m => (m.pname, !m.optional) := by
+  obtain ⟨irs, st', h1, h2⟩ := propFold_mems t.members [] st (by simp) hk
+  refine ⟨irs, st', ?_, by simpa [keyReq] using h2⟩
+  simp only [buildPropsType, resolveElements_eq_members t FUEL st hr hd, h1]
+
+/-- non-vacuity: a nested type that meets the hypotheses, and its meaning -/
+example :
+    let t := PTy.inter [.lit [⟨"id", false, false, .mk .tsKeyword ["string"] []⟩],
+                        .partial_ (.paren (.lit [⟨"size", false, false, .mk .tsKeyword ["number"] []⟩, ⟨"aria-label", true, false, .mk .tsKeyword ["string"] []⟩]))]
+    t.depth ≤ FUEL ∧ (t.members.map fun m => (m.name, !m.optional)) = [("id", true), ("size", false), ("aria-label", false)] := by
+  constructor <;> decide
+
 end VueJsx
